@@ -80,7 +80,8 @@ def stub_stream(ck: Check):
         for _ in range(60):
             n = rng.randint(0, 8)
             fail_at = rng.choice([None, None, rng.randrange(n)]) if n else None
-            times = sorted({round(rng.uniform(0, 10), 3) for _ in range(n)})
+            # time axes may start negative and pass through exactly 0 (a falsy time stamp)
+            times = sorted({round(rng.uniform(-6, 10), 3) for _ in range(n)} | ({0.0} if n and rng.random() < 0.5 else set()))
             n = len(times)
             if fail_at is not None and fail_at >= n:
                 fail_at = None
@@ -119,7 +120,8 @@ def stub_stream(ck: Check):
             n = ck.rng.randint(0, 8)
             plan = [ck.rng.choice(["v", "v", "ValueError", "ZeroDivisionError", "RuntimeError"]) for _ in range(n)]
             vals = [round(ck.rng.uniform(0.1, 9), 3) for _ in range(n)]
-            times = [float(i) * 0.5 for i in range(n)]
+            t0 = rng.choice([0.0, -1.0, -1.5, 2.0])
+            times = [t0 + float(i) * 0.5 for i in range(n)]
             k = [0]
             seen_method = []
 
@@ -155,6 +157,43 @@ def stub_stream(ck: Check):
                 toks += [(f"!{p}" if p != "v" else q(v)), q(t)]
             reqs.append(("c14 ls " + " ".join(toks)).strip())
             expect.append((case, ("ok " + " ".join(f"{q(t)}:{'nan' if l != l else q(l)}" for t, l in zip(tr.times, tr.length_scales))).strip()))
+        # source selection: single fields and collections, source None / integer (0 included) / callable
+        from pde import FieldCollection, ScalarField as _SF, UnitGrid as _UG
+
+        g1 = _UG([4])
+        for ncomp in (1, 2, 3):
+            for src_name in ["none", "func"] + [str(k) for k in range(ncomp)]:
+                for coll in (False, True):
+                    if not coll and ncomp != 1:
+                        continue
+                    state = FieldCollection([_SF(g1, float(k)) for k in range(ncomp)]) if coll else _SF(g1, 0.0)
+                    source = None if src_name == "none" else ((lambda fs: fs[-1] if isinstance(fs, FieldCollection) else fs) if src_name == "func" else int(src_name))
+                    got_field = []
+
+                    def stub4(scalar_field, method="structure_factor_maximum", **kw):
+                        got_field.append(scalar_field)
+                        return 1.25
+
+                    ia.get_length_scale = stub4
+                    tr = LengthScaleTracker(1, source=source)
+                    ck.case(("ls-source", ncomp, src_name, coll))
+                    ck.count("ls_source_selection")
+                    case = {"kind": "ls-source", "components": ncomp, "source": src_name, "collection": coll}
+                    try:
+                        tr.handle(state, 0.0)
+                        if len(got_field) != 1 or isinstance(got_field[0], FieldCollection):
+                            impl = "err not-a-single-field"
+                        else:
+                            impl = f"ok {int(got_field[0].data[0])}"
+                            if tr.length_scales != [1.25] or tr.times != [0.0]:
+                                ck.fail(f"LengthScaleTracker(source={src_name}) recorded {tr.length_scales} instead of the value the analysis returned for the selected field",
+                                        {"check": "lengthscale_records_selected"}, case)
+                    except Exception as e:  # noqa: BLE001
+                        impl = "err " + type(e).__name__
+                    if impl.startswith("ok") is False and not (src_name == "none" and coll) and not (src_name.isdigit() and not coll):
+                        ck.fail(f"LengthScaleTracker(source={src_name}) on a {'collection' if coll else 'single field'}: {impl}", {"check": "lengthscale_records_selected"}, case)
+                    reqs.append(f"c14 extract {src_name} {int(coll)} {ncomp}")
+                    expect.append((case, impl))
     finally:
         ia.get_length_scale = orig_ls
     outs = run_driver(reqs)
@@ -183,7 +222,7 @@ def end_to_end(ck: Check, n_cases: int):
         grid = CartesianGrid([[0, n]] * dim, [n] * dim, periodic=[rng.random() < 0.5] * dim)
         nfr = rng.randint(0, 6)
         fields, times = [], []
-        t = rng.choice([0.0, 2.5])
+        t = rng.choice([0.0, 2.5, -1.5, -2.0, -0.5, -4.5])  # negative starts: the axis passes through exactly 0 at a later frame
         for _f in range(nfr):
             k = rng.choice([0, 1, 1, 2])
             drops = []
